@@ -1770,14 +1770,14 @@ func (x *FnExec) mapUpdate(fr *Frame, v *ssa.MapUpdate, st *State, g *Term) {
 			if !staticDebugName(fr.fn, ma.Callee, v.Map) {
 				continue
 			}
-			if bumped {
-				unsupp("two mapassert clauses for the same map %s: join them with &&", ma.Callee)
-			}
-			bumped = true
 			ev := x.specEnv(fr, st, x.entry, x.top)
 			ev.vars["key"] = TV{fr.val(v.Key), v.Key.Type()}
 			ev.vars["value"] = TV{fr.val(v.Value), v.Value.Type()}
 			x.oblige("ASSERT", "at update of "+ma.Callee+": "+ma.Cl.Text, g, ev.evalBool(ma.Cl.E), v.Pos())
+			bumped = true
+		}
+		if bumped {
+			// several mapassert clauses on one map are all evaluated in the state before the update; one bump
 			gt := x.ghostTypes["mapupd"]
 			if gt == nil {
 				gt = types.NewNamed(types.NewTypeName(0, nil, "ghost_mapupd", nil), types.Typ[types.Int], nil)
